@@ -71,6 +71,13 @@ def perturbations(c, t, thorough):
                 tt["max_consumed_culled_kcals_each_month"] = np.cumsum(k)
                 cc["meat_summed_consumption"] = cc["meat_summed_consumption"] + d * len(ms)
             yield "meat+" + label, 1, meat
+            # the two meat inputs one at a time: the running total of slaughter alone (meat allowed to be eaten by month m, raised from
+            # the first listed month on) is pure extra supply whatever the total says
+            def meat_running(cc, tt, ms=ms):
+                k = np.array(tt["max_consumed_culled_kcals_each_month"], dtype=float)
+                k[min(ms):] += d
+                tt["max_consumed_culled_kcals_each_month"] = k
+            yield "meat_running_total+" + label, 1, meat_running
         has_sources = c["ADD_STORED_FOOD"] or c["ADD_OUTDOOR_GROWING"]
         if has_sources and label in ("m0", "m13", "all"):
             def charge(which, ms=ms):
@@ -82,6 +89,13 @@ def perturbations(c, t, thorough):
                 return f
             yield "feed_charge+" + label, -1, charge("feed")
             yield "biofuel_charge+" + label, -1, charge("biofuel")
+    if c["ADD_MEAT"]:
+        def meat_last(cc, tt):
+            k = np.array(tt["max_consumed_culled_kcals_each_month"], dtype=float)
+            k[-1] += d
+            tt["max_consumed_culled_kcals_each_month"] = k
+        yield "meat_running_total+last", 1, meat_last
+        yield "meat_total+", 1, lambda cc, tt: cc.__setitem__("meat_summed_consumption", cc["meat_summed_consumption"] + d)
     for key, add in (("CROP_WASTE_RETAIL", "ADD_OUTDOOR_GROWING"), ("STORED_FOOD_WASTE_RETAIL", "ADD_STORED_FOOD"), ("MEAT_WASTE_RETAIL", "ADD_MEAT"),
                      ("SCP_RETAIL_WASTE", "ADD_METHANE_SCP"), ("CELL_SUGAR_RETAIL_WASTE", "ADD_CELLULOSIC_SUGAR"), ("SEAWEED_WASTE_RETAIL", "ADD_SEAWEED")):
         if c[add] and c[key] >= 5:
